@@ -60,7 +60,9 @@ Isolation ==
            /\ ((\A i \in 1..n : pop[i].addr # E.m.a) => E.r.k = "None" /\ E.obs = prev))
     /\ (E.m.k \in {"SendData", "DataChunksSent"} =>
            /\ E.r.k = "None"
-           /\ \A i \in 1..n : ~Receiving(prev[i]) => E.obs[i] = prev[i])
+           /\ \A i \in 1..n : ~Receiving(prev[i]) => E.obs[i] = prev[i]
+           \* and every sign digests it exactly as it would alone on a bus (signs are isolated from each other)
+           /\ \A i \in 1..n : E.obs[i] = E.soloobs[i])
     \* messages that only signs send are not for signs: ignored by everybody
     /\ (E.m.k \in {"ReportState", "AckOperation", "Unknown"} => E.r.k = "None" /\ E.obs = prev)
 
